@@ -263,6 +263,23 @@ def container_routes():
     return r
 
 
+def zero_model_routes():
+    """A model holding exact zeros (a parameter, the fit error): built by assignment, through the constructor arguments, or parsed from an export."""
+    import pygaps
+    from pygaps.modelling import get_isotherm_model
+    pz = {'n_m': 4.0, 'K': 5.0, 'tht': 0.0}
+    def via_ctor():
+        m = get_isotherm_model('TemkinApprox', parameters=dict(pz), pressure_range=(0.5, 4.0), loading_range=(0.25, 2.0), rmse=0.0)
+        return pygaps.ModelIsotherm(model=m, **kw())
+    r = {}
+    r['assigned'] = lambda: mk_model('TemkinApprox', dict(pz), rmse=0.0)
+    r['constructor arguments'] = via_ctor
+    r['from_json(to_json)'] = lambda: pygaps.parsing.isotherm_from_json(mk_model('TemkinApprox', dict(pz), rmse=0.0).to_json())
+    r['from_csv(to_csv)'] = lambda: pygaps.parsing.isotherm_from_csv(mk_model('TemkinApprox', dict(pz), rmse=0.0).to_csv())
+    r['int zero'] = lambda: mk_model('TemkinApprox', {'n_m': 4.0, 'K': 5.0, 'tht': 0}, rmse=0)
+    return r
+
+
 def model_routes():
     import pygaps
     r = {}
@@ -322,6 +339,16 @@ def pair_edits():
                       lambda mk=mk: mk(_exptl_method='volumetric'), lambda mk=mk: mk(_exptl_method='gravimetric')))
         pairs.append((f'[{cls}] metadata under a key starting with an underscore: present / absent', lambda mk=mk: mk(_audit_note='x'), lambda mk=mk: mk()))
         pairs.append((f'[{cls}] metadata key data_hash: value changed', lambda mk=mk: mk(data_hash='x'), lambda mk=mk: mk(data_hash='y')))
+    for cls, mk in (('base', mk_base), ('point', mk_point), ('model', mk_model)):
+        # integers beyond the range in which a float can tell neighbours apart (nanosecond time stamps, 64-bit keys)
+        pairs.append((f'[{cls}] integer metadata 2**53 vs 2**53 + 1', lambda mk=mk: mk(key64=2 ** 53), lambda mk=mk: mk(key64=2 ** 53 + 1)))
+        pairs.append((f'[{cls}] integer metadata: nanosecond time stamps one apart', lambda mk=mk: mk(t_ns=1696334400123456789), lambda mk=mk: mk(t_ns=1696334400123456790)))
+        pairs.append((f'[{cls}] integer metadata inside a list', lambda mk=mk: mk(keys=[1, 2 ** 60]), lambda mk=mk: mk(keys=[1, 2 ** 60 + 1])))
+        pairs.append((f'[{cls}] metadata 5 vs 5.5', lambda mk=mk: mk(level=5), lambda mk=mk: mk(level=5.5)))
+    # a model parameter / fit error of exactly zero is a value: it differs from "unknown" (NaN)
+    pairs.append(('[model] parameter exactly 0 vs NaN', lambda: mk_model('TemkinApprox', {'n_m': 4.0, 'K': 5.0, 'tht': 0.0}), lambda: mk_model('TemkinApprox', {'n_m': 4.0, 'K': 5.0, 'tht': float('nan')})))
+    pairs.append(('[model] fit error exactly 0 vs NaN', lambda: mk_model(rmse=0.0), lambda: mk_model(rmse=float('nan'))))
+    pairs.append(('[model] parameter 0 vs 1e-300', lambda: mk_model('Quadratic', {'n_m': 2.5, 'Ka': 3.0, 'Kb': 0.0}), lambda: mk_model('Quadratic', {'n_m': 2.5, 'Ka': 3.0, 'Kb': 1e-30})))
     pairs.append(('[point] pressure and loading columns exchanged as a whole', lambda: mk_point(), lambda: mk_point(df=point_df(p=L, l=P))))
     p2, l2 = list(P), list(L)
     p2[1], l2[1] = L[1], P[1]
@@ -368,7 +395,7 @@ def run(ctx):
     # ---- insensitivity
     groups = [('simple', simple_routes(), 'list[float]'), ('decimal', decimal_routes(), 'list[float]'),
               ('decimal extra column', decimal_extra_routes(), 'extra column float64'), ('zeros', zero_routes(), '+0.0'),
-              ('model with integer-valued content', model_int_routes(), 'float literals'), ('container metadata', container_routes(), 'list'),
+              ('model with integer-valued content', model_int_routes(), 'float literals'), ('container metadata', container_routes(), 'list'), ('model with exact zeros', zero_model_routes(), 'assigned'),
               ('early-named extra columns', early_name_routes(), 'marks guessed'),
               ('point', point_routes(), 'reference'), ('base', base_routes(), 'reference'),
               ('model', model_routes(), 'reference'), ('fitted model', fitted_routes(), 'list[float]')]
